@@ -65,12 +65,14 @@ Full(d, gs) ==
   LET g == d.named[gs.open.k] IN
   /\ \A m \in BlockMembers(g) : m.id \in FilledIds(gs)
   /\ Len(gs.open.words) = Len(PosMembers(g))
+\* a positional member that is a fixed word (it stands for the name of a regular subcommand nested in an adjacent one)
+LitBad(m, w) == "lit" \in DOMAIN m /\ m.lit # "" /\ w # m.lit
 \* a member of the open block holds a value that fails conversion or its guard
 BlockBad(d, gs) ==
   LET g == d.named[gs.open.k] IN
   \/ \E i \in DOMAIN gs.open.filled : \E m \in NamedMembers(g) :
         m.id = gs.open.filled[i].id /\ m.kind = "arg" /\ BadValue(m, gs.open.filled[i].v)
-  \/ \E j \in DOMAIN gs.open.words : ConvBad(PosMembers(g)[j].vt, gs.open.words[j])
+  \/ \E j \in DOMAIN gs.open.words : ConvBad(PosMembers(g)[j].vt, gs.open.words[j]) \/ LitBad(PosMembers(g)[j], gs.open.words[j])
 \* `cut` remembers the first adjacent subcommand whose block cannot stand (cut short, or holding an invalid value)
 Close(d, gs) ==
   IF gs.open.k = 0 THEN gs
@@ -122,8 +124,12 @@ GName(d, gs, n, hasv, v) ==
 \* an adjacent subcommand is looked for when its field is evaluated: items of fields declared after it
 \* are still unclaimed then and, typed in front of the name, hide it; a group that is not repeated is
 \* looked for only once
+IsJoinedF(f) == f.kind = "adj" /\ "joined" \in DOMAIN f /\ f.joined # ""
 CanEnter(d, gs, k) ==
   /\ \A j \in DOMAIN d.named : j > k => \A it \in FieldLeaves(d.named[j]) : gs.acc[it.id] = <<>>
+  \* (so is a block of an adjacent subcommand declared after it - unless both are alternatives of one choice)
+  /\ \A j \in AdjFields(d) : (j > k /\ ~(IsJoinedF(d.named[j]) /\ IsJoinedF(d.named[k]) /\ d.named[j].joined = d.named[k].joined))
+                                 => gs.blocks[j] = <<>>
   /\ (d.named[k].arity \in {"one", "opt"} => gs.blocks[k] = <<>>)
 \* a repeated occurrence of a single-use option is an item nobody claimed
 \* (so is what a bare or optional choice leaves behind: items of a second branch, a second occurrence of a member)
@@ -364,7 +370,8 @@ BlockVal(g, b) ==
                      IF S = {} THEN [has |-> FALSE, v |-> ""] ELSE [has |-> TRUE, v |-> b.filled[CHOOSE i \in S : TRUE].v]
       MemberV(m, j) ==     \* j = index among positional members
         IF m.kind = "pos"
-        THEN (IF ConvBad(m.vt, b.words[j]) THEN [ok |-> FALSE] ELSE [ok |-> TRUE, v |-> IF m.vt = "int" THEN ToInt(b.words[j]) ELSE b.words[j]])
+        THEN (IF ConvBad(m.vt, b.words[j]) \/ LitBad(m, b.words[j]) THEN [ok |-> FALSE]
+              ELSE [ok |-> TRUE, v |-> IF "lit" \in DOMAIN m /\ m.lit # "" THEN "U" ELSE IF m.vt = "int" THEN ToInt(b.words[j]) ELSE b.words[j]])
         ELSE LET fv == FilledV(m.id) IN
              IF m.kind = "switch" THEN [ok |-> TRUE, v |-> fv.has]
              ELSE IF m.kind = "reqflag" THEN [ok |-> TRUE, v |-> "U"]
